@@ -227,6 +227,45 @@ def t_block(E, n):
     E.prove(r.is_error(cassette.CRCError), 'a changed data byte is rejected by the CRC check')
 
 
+class _Console(object):
+    _pyvc_trusted = True
+    def __init__(self):
+        self.lines = []
+    def write_line(self, s):
+        self.lines.append(s)
+
+
+def t_search(E, first_len):
+    """CASDevice._search: finds a file by name, skips the others, and a failed search leaves the tape usable."""
+    cs, tape = _stream(E)
+    dev = object.__new__(cassette.CASDevice)
+    dev.tapestream = cs
+    dev.is_quiet = False
+    dev.console = _Console()
+    one = [E.int('one[%d]' % i, 1, 255) for i in range(first_len)]
+    two = [E.int('two[%d]' % i, 1, 255) for i in range(3)]
+    for name, data in ((b'ONE', one), (b'TWO', two)):
+        E.call(cs.open_write, name, b'D', 0, 0, 0)
+        E.call(cs.write, (SBuf(data, 'bytes') if E.mode == 'symbolic' else bytes(data)) if data else b'')
+        E.call(cs.write, b'\0')
+        E.call(cs.close)
+    tape.rpos = 0
+    r = E.call(dev._search, b'NOSUCH', None)
+    E.prove(r.is_error(BASICError, error.DEVICE_TIMEOUT), 'a file that is not on the tape: Device Timeout')
+    E.prove(cs.is_open is False, 'and no file is left open')
+    E.prove(tape.rpos == 0, 'and the tape is rewound')
+    r = E.call(dev._search, b'TWO', None)
+    E.prove(not r.raised, 'the second file is found by name')
+    if r.raised:
+        return
+    trunk, ftype, seg, offs, length = r.value
+    E.prove(bytes(trunk) == b'TWO     ' and ftype == b'D', 'with its own header')
+    got = E.call(cs.read, -1)
+    E.prove(not got.raised and len(to_cells(got.value)) == 3 and bool(cells_equal(list(to_cells(got.value)), two)),
+            'and reading returns the second file\'s contents, nothing of the first')
+    E.prove(any(bytes(l).startswith(b'ONE') and bytes(l).endswith(b'Skipped.') for l in dev.console.lines), 'the first file is reported as skipped')
+
+
 class _MFile(object):
     """A file opened by BLOAD: header fields and the bytes read() delivers."""
     _pyvc_trusted = True
@@ -292,6 +331,7 @@ TASKS = [
     Task('binary file framing', t_binary_file,
          cases=[{'L': L, 'ftype': t} for L, t in ((1, b'B'), (3, b'B'), (255, b'P'), (256, b'M'), (257, b'B'), (600, b'P'))]),
     Task('block and CRC', t_block, cases=[{'n': n} for n in (1, 17, 256)]),
+    Task('CASDevice._search', t_search, cases=[{'first_len': n} for n in (0, 4, 300)]),
     Task('Memory.bload_ (image read back whole)', t_bload, cases=[{'n': n, 'device': d} for n in (1, 4, 10) for d in ('cassette', 'disk')]),
 ]
 
@@ -302,5 +342,5 @@ ASSUMPTIONS = [
 ]
 NOT_COVERED = [
     'CASBitStream / WAVBitStream encodings and their resynchronisation; crc() itself',
-    'CASDevice._search name matching and the Found/Skipped messages; reading with explicit sizes (INPUT$)',
+    'reading with explicit sizes (INPUT$); a data record whose count byte is &HA5 is taken for a header while skipping (spurious Skipped message)',
 ]
